@@ -120,8 +120,13 @@ Definition pty_span (t : pty) : span :=
 
 Definition usename_ident (n : usename) : ident := match n with Implicit i | Alias i => i end.
 
-Definition is_function (e : pexpr) : bool :=
-  match e with PFunction _ _ _ _ _ _ => true | _ => false end.
+(* fn is_function_literal (name_resolution.rs): a function literal, possibly inside redundant parentheses *)
+Fixpoint is_function (e : pexpr) : bool :=
+  match e with
+  | PFunction _ _ _ _ _ _ => true
+  | PParenthesis x _ => is_function x
+  | _ => false
+  end.
 
 Definition fol_eqb (a b : file_or_lib) : bool :=
   match a, b with
